@@ -110,7 +110,7 @@ class Plan:
         out = []
         for fam in A.FAMILIES:
             roots = []
-            ls = sample_layouts(self.tier, fam) if self.tier == "thorough" else layouts_for("quick", fam, sub="3")
+            ls = layouts_for("thorough", fam) if self.tier == "thorough" else layouts_for("quick", fam, sub="3")
             for l in ls:
                 roots += self.gen.inherent_roots(l, num_types=self._conv_types(l),
                                                  want=lambda g, n: g == "conv")
@@ -244,6 +244,8 @@ LOOP_CONTROLS = """
 pub fn ctl__loop_const(a: u64) -> u64 { let mut x = a; for i in 0..37u64 { x = x.rotate_left(3) ^ i; } x }
 #[no_mangle] #[inline(never)]
 pub fn ctl__loop_linear(a: u64) -> u64 { let mut x = a; let mut n = 0u64; while x > 7 { x -= 7; n = n.wrapping_mul(3) ^ x; } n }
+#[no_mangle] #[inline(never)]
+pub fn ctl__loop_runtime(a: u64, n: u32) -> u64 { let mut x = a; for i in 0..n.min(50) { x = x.rotate_left(7) ^ (i as u64); } x }
 #[no_mangle] #[inline(never)]
 pub fn ctl__loop_halving(a: u64) -> u64 { let mut x = a; let mut n = 0u64; while x >= 2 { x = (x >> 1) + (x & 1); n = n.wrapping_add(1); } n }
 """
